@@ -189,3 +189,20 @@ theorem All2.forall_right {α β} {R : α → β → Prop} {P : β → Prop} {xs
     · exact hp _ _ hab
     · exact ih y hm
 end KV.Sig
+
+namespace KV.Sig
+def nodupB : List Nat → Bool
+  | [] => true
+  | x :: r => !(r.contains x) && nodupB r
+
+/-- Boolean certificate for one level: outputs pairwise different and no op reads an output of the level -/
+def levelIndepB (lv : List Op) : Bool :=
+  let outs := lv.map (·.out)
+  nodupB outs && lv.all fun o => o.ins.all fun i => !(outs.contains i)
+
+
+/-- split an op list into its levels given the level start indices -/
+def splitLevels (ops : List Op) (starts : List Nat) : List (List Op) :=
+  let stops := starts.drop 1 ++ [ops.length]
+  (starts.zip stops).map fun (a, b) => (ops.drop a).take (b - a)
+end KV.Sig
